@@ -17,6 +17,11 @@ import six
 LWS = (' ', '\t', '\n', '\r')
 
 
+# Optional white space around header names and values, nothing else is
+# (vertical tab, form feed and the separator controls are not)
+OWS = ' \t'
+
+
 class Response(object):
     """A HTTP response.
 
@@ -45,16 +50,16 @@ class Response(object):
             if line.startswith(LWS):
                 if header:
                     headers[header].append(' ')
-                    headers[header].append(line.lstrip())
+                    headers[header].append(line.lstrip(OWS))
             else:
                 header, _colon, value = line.partition(':')
-                header = header.lower().strip()
+                header = header.lower().strip(OWS)
                 if header in headers:
                     headers[header].append(',')
                 headers[header].append(value)
 
         self.headers = {
-            header: ''.join(value).strip()
+            header: ''.join(value).strip(OWS)
             for header, value in headers.items()
         }
 
